@@ -319,12 +319,15 @@ Definition read_post_ok (n : Z) (orig : list Z) (rd : cidx) (ps : post) : Prop :
   | CSl r => 0 < step_of r
              /\ sel_nth (py_indices n r) (axis_sel (zlen (py_indices n r)) (post_to_cidx ps)) = orig
              /\ ps <> PDrop
+             /\ valid_cidx (zlen (py_indices n r)) (post_to_cidx ps)
   | CNew => False
   end.
 
+Ltac rpv := cbn [post_to_cidx valid_cidx]; unfold step_of, rev_slice, fsl_to_pslice, sl_none; cbn [s_step]; try lia.
+
 Lemma rpo_none_none n : 0 <= n -> read_post_ok n (range_of (0, n, 1)) (CSl sl_none) (PSl sl_none).
 Proof.
-  intros Hn. unfold read_post_ok. split; [reflexivity|]. split; [|discriminate].
+  intros Hn. unfold read_post_ok. split; [reflexivity|]. split; [|split; [discriminate|rpv]].
   cbn [post_to_cidx axis_sel]. rewrite (py_indices_none n Hn).
   assert (E : zlen (zseq n) = n) by (unfold zlen; now apply zseq_length). rewrite E.
   rewrite (py_indices_none n Hn). rewrite sel_nth_zseq by (intros j Hj; now apply zseq_In).
@@ -333,7 +336,7 @@ Qed.
 
 Lemma rpo_none_rev n : 0 <= n -> read_post_ok n (range_of (n - 1, -1, -1)) (CSl sl_none) (PSl (rev_slice (-1))).
 Proof.
-  intros Hn. unfold read_post_ok. split; [reflexivity|]. split; [|discriminate].
+  intros Hn. unfold read_post_ok. split; [reflexivity|]. split; [|split; [discriminate|rpv]].
   cbn [post_to_cidx axis_sel]. rewrite (py_indices_none n Hn).
   assert (E : zlen (zseq n) = n) by (unfold zlen; now apply zseq_length). rewrite E.
   rewrite py_indices_rev1 by assumption.
@@ -347,7 +350,7 @@ Qed.
 Lemma rpo_full_slice n f : 0 <= n -> wf_fsl n f -> f_step f <> 0 ->
   read_post_ok n (fsl_indices f) (CSl sl_none) (PSl (fsl_to_pslice f)).
 Proof.
-  intros Hn Hwf Hst. unfold read_post_ok. split; [reflexivity|]. split; [|discriminate].
+  intros Hn Hwf Hst. unfold read_post_ok. split; [reflexivity|]. split; [|split; [discriminate|rpv]].
   cbn [post_to_cidx axis_sel]. rewrite (py_indices_none n Hn).
   assert (E : zlen (zseq n) = n) by (unfold zlen; now apply zseq_length). rewrite E.
   rewrite sel_nth_zseq; [now apply py_indices_fsl|].
@@ -357,7 +360,8 @@ Qed.
 
 Lemma rpo_full_int n k : 0 <= k < n -> read_post_ok n [k] (CSl sl_none) (PInt k).
 Proof.
-  intros Hk. unfold read_post_ok. split; [reflexivity|]. split; [|discriminate].
+  intros Hk. unfold read_post_ok. split; [reflexivity|]. split; [|split; [discriminate|]].
+  2:{ cbn [post_to_cidx valid_cidx]. rewrite py_indices_none by lia. unfold zlen. rewrite zseq_length; lia. }
   cbn [post_to_cidx axis_sel]. rewrite py_indices_none by lia. apply sel_nth_zseq.
   intros j [<-|[]]. assumption.
 Qed.
@@ -365,7 +369,7 @@ Qed.
 Lemma rpo_same_pos n f : 0 <= n -> wf_fsl n f -> 0 < f_step f ->
   read_post_ok n (fsl_indices f) (CSl (fsl_to_pslice f)) (PSl sl_none).
 Proof.
-  intros Hn Hwf Hst. unfold read_post_ok. split; [exact Hst|]. split; [|discriminate].
+  intros Hn Hwf Hst. unfold read_post_ok. split; [exact Hst|]. split; [|split; [discriminate|rpv]].
   cbn [post_to_cidx axis_sel]. rewrite py_indices_fsl by assumption.
   rewrite py_indices_none by apply Nat2Z.is_nonneg.
   unfold fsl_indices. rewrite zlen_range_of. apply sel_nth_all.
@@ -395,7 +399,7 @@ Lemma rpo_positive_rev n f : 0 <= n -> wf_fsl n f -> f_step f < 0 ->
   read_post_ok n (fsl_indices f) (CSl (fsl_to_pslice (positive_slice f))) (PSl (rev_slice (-1))).
 Proof.
   intros Hn Hwf Hst. destruct (positive_slice_spec f Hst) as (Hi & Hs & _).
-  unfold read_post_ok. split; [unfold step_of, fsl_to_pslice; cbn; lia|]. split; [|discriminate].
+  unfold read_post_ok. split; [unfold step_of, fsl_to_pslice; cbn; lia|]. split; [|split; [discriminate|rpv]].
   cbn [post_to_cidx axis_sel]. rewrite py_indices_fsl by (try apply positive_slice_wf; assumption).
   rewrite py_indices_rev1 by apply Nat2Z.is_nonneg.
   unfold fsl_indices at 1 2. rewrite zlen_range_of.
@@ -411,7 +415,7 @@ Lemma rpo_contig_pos n f : 0 <= n -> wf_fsl n f -> 0 < f_step f ->
 Proof.
   intros Hn Hwf Hst.
   destruct Hwf as [(_ & Ha & b & Hb & Hbb)|(H & _)]; [|lia].
-  unfold read_post_ok. split; [reflexivity|]. split; [|discriminate].
+  unfold read_post_ok. split; [reflexivity|]. split; [|split; [discriminate|rpv]].
   cbn [post_to_cidx axis_sel]. rewrite Hb.
   change (mkSl (Some (f_start f)) (Some b) (Some 1)) with (fsl_to_pslice (mkF (f_start f) (Some b) 1)).
   rewrite py_indices_fsl by (try apply wf_fsl_unit; assumption).
@@ -447,7 +451,7 @@ Proof.
     replace ((0 <? f_step f) && (stop_or f - f_start f <=? 0) || (f_step f <? 0) && (0 <=? stop_or f - f_start f)) with false by lia.
     reflexivity. }
   clear HL.
-  unfold read_post_ok. split; [reflexivity|]. split; [|discriminate].
+  unfold read_post_ok. split; [reflexivity|]. split; [|split; [discriminate|rpv]].
   cbn [post_to_cidx axis_sel].
   unfold positive_slice in *. replace (0 <? f_step f) with false in * by lia.
   unfold fsl_indices at 1, fsl_triple.
@@ -783,3 +787,462 @@ Qed.
 Lemma slicers2segments_total rd shape off w : reads_valid shape rd ->
   exists segs, slicers2segments rd shape off w = Ok segs.
 Proof. intros Hv. unfold slicers2segments. apply (s2s_total rd [] shape w true _ Hv). Qed.
+
+(* ====================================================================================
+   Part 3: post-slicing the block that was read gives the block that was asked for *)
+Fixpoint ix_valid (shape : list Z) (ix : list cidx) : Prop :=
+  match ix with
+  | [] => shape = []
+  | CNew :: r => ix_valid shape r
+  | c :: r => match shape with n :: sh => 0 <= n /\ valid_cidx n c /\ ix_valid sh r | [] => False end
+  end.
+
+Lemma offs_scale : forall ix sh k strd,
+  offs sh ix (k * strd) = map (fun x => k * x) (offs sh ix strd).
+Proof.
+  induction ix as [|c ix IH]; intros sh k strd.
+  - cbn. f_equal. lia.
+  - assert (G : forall n sh', 
+      flat_map (fun outer => map (fun i => k * strd * i + outer) (axis_sel n c)) (offs sh' ix (k * strd * n))
+      = map (fun x => k * x) (flat_map (fun outer => map (fun i => strd * i + outer) (axis_sel n c)) (offs sh' ix (strd * n)))).
+    { intros n sh'. replace (k * strd * n) with (k * (strd * n)) by lia. rewrite IH.
+      rewrite flat_map_map, map_flat_map. apply flat_map_ext. intros o. rewrite map_map.
+      apply map_ext. intros; lia. }
+    destruct c as [k0|s|]; cbn [offs]; [destruct sh as [|n sh']; [reflexivity|apply G]
+                                      |destruct sh as [|n sh']; [reflexivity|apply G]|apply IH].
+Qed.
+
+Lemma axis_sel_in_range n c i : 0 <= n -> valid_cidx n c -> In i (axis_sel n c) -> 0 <= i < n.
+Proof.
+  intros Hn Hv Hi. destruct c as [k|s|]; cbn in *; [destruct Hi as [<-|[]]; assumption| |contradiction].
+  now apply (py_indices_in_range n s).
+Qed.
+
+Lemma prod_nonneg l : Forall (fun n => 0 <= n) l -> 0 <= prod l.
+Proof. induction 1; cbn; [lia|]. unfold prod in *. nia. Qed.
+
+Lemma ix_valid_shape_nonneg : forall ix shape, ix_valid shape ix -> Forall (fun n => 0 <= n) shape.
+Proof.
+  induction ix as [|c ix IH]; intros shape Hv.
+  - cbn in Hv. subst. constructor.
+  - destruct c as [k|s|]; cbn [ix_valid] in Hv; [| |now apply IH];
+      (destruct shape as [|n sh]; [contradiction|]); destruct Hv as (Hn & _ & Hv); constructor; auto.
+Qed.
+
+Lemma offs_range : forall ix shape o, ix_valid shape ix -> In o (offs shape ix 1) -> 0 <= o < prod shape.
+Proof.
+  induction ix as [|c ix IH]; intros shape o Hv Ho.
+  - cbn in *. subst. destruct Ho as [<-|[]]. cbn. lia.
+  - assert (G : forall n sh, 0 <= n -> valid_cidx n c -> ix_valid sh ix ->
+       In o (flat_map (fun outer => map (fun i => 1 * i + outer) (axis_sel n c)) (offs sh ix (1 * n))) ->
+       0 <= o < prod (n :: sh)).
+    { intros n sh Hn Hc Hv' Ho'. apply in_flat_map in Ho'. destruct Ho' as (outer & Hout & Hin).
+      apply in_map_iff in Hin. destruct Hin as (i & <- & Hi).
+      replace (1 * n) with (n * 1) in Hout by lia. rewrite offs_scale in Hout.
+      apply in_map_iff in Hout. destruct Hout as (o2 & <- & Ho2).
+      pose proof (IH sh o2 Hv' Ho2) as Hr. pose proof (axis_sel_in_range n c i Hn Hc Hi) as Hir.
+      cbn [prod fold_right]. fold (prod sh). nia. }
+    destruct c as [k|s|]; cbn [ix_valid offs] in *;
+      [destruct shape as [|n sh]; [contradiction|]; destruct Hv as (Hn & Hc & Hv); now apply G
+      |destruct shape as [|n sh]; [contradiction|]; destruct Hv as (Hn & Hc & Hv); now apply G
+      |now apply IH].
+Qed.
+
+Lemma zlen_map {A B} (f : A -> B) l : zlen (map f l) = zlen l.
+Proof. unfold zlen. now rewrite map_length. Qed.
+
+Lemma zlen_flat_map_const {A B} (F : A -> list B) m l :
+  (forall x, zlen (F x) = m) -> zlen (flat_map F l) = m * zlen l.
+Proof.
+  intros H. induction l as [|x l IH]; cbn [flat_map]; [unfold zlen; cbn; lia|].
+  unfold zlen in *. rewrite app_length. cbn [length]. rewrite Nat2Z.inj_add, IH, H. lia.
+Qed.
+
+Lemma offs_length : forall ix shape strd, ix_valid shape ix ->
+  zlen (offs shape ix strd) = prod (np_shape shape ix).
+Proof.
+  induction ix as [|c ix IH]; intros shape strd Hv.
+  - reflexivity.
+  - destruct c as [k|s|]; cbn [ix_valid] in Hv.
+    + destruct shape as [|n sh]; [contradiction|]. destruct Hv as (Hn & Hc & Hv).
+      cbn [offs np_shape axis_sel tl]. rewrite (zlen_flat_map_const _ 1) by (intros; reflexivity).
+      rewrite IH by assumption. lia.
+    + destruct shape as [|n sh]; [contradiction|]. destruct Hv as (Hn & Hc & Hv).
+      cbn [offs np_shape axis_sel tl hd]. rewrite (zlen_flat_map_const _ (zlen (py_indices n s))) by (intros; apply zlen_map).
+      rewrite IH by assumption. reflexivity.
+    + cbn [offs np_shape]. rewrite IH by assumption. cbn [prod fold_right]. fold (prod (np_shape shape ix)). lia.
+Qed.
+
+(* nth into a concatenation of equal-length blocks *)
+Lemma nth_blocks {A B} (F : A -> list B) (m : nat) (O : list A) (d : B) (da : A) :
+  (forall o, length (F o) = m) -> forall (j i : nat), (i < m)%nat -> (j < length O)%nat ->
+  nth (i + m * j) (flat_map F O) d = nth i (F (nth j O da)) d.
+Proof.
+  intros HF. induction O as [|o O IH]; intros j i Hi Hj; cbn [length] in Hj; [lia|].
+  cbn [flat_map]. destruct j as [|j].
+  - rewrite Nat.mul_0_r, Nat.add_0_r. rewrite app_nth1 by (rewrite HF; lia). reflexivity.
+  - rewrite app_nth2 by (rewrite HF; lia). rewrite HF.
+    replace (i + m * S j - m)%nat with (i + m * j)%nat by lia. cbn [nth]. apply IH; lia.
+Qed.
+
+Lemma sel_nth_flat_map L (F : Z -> list Z) J : sel_nth L (flat_map F J) = flat_map (fun j => sel_nth L (F j)) J.
+Proof. unfold sel_nth. apply map_flat_map. Qed.
+
+Lemma nth_map_in {A B} (f : A -> B) l n d d' : (n < length l)%nat -> nth n (map f l) d = f (nth n l d').
+Proof. intros H. rewrite (nth_indep _ d (f d')) by (rewrite map_length; lia). apply map_nth. Qed.
+
+Lemma flat_map_ext_in' {A B} (f g : A -> list B) l :
+  (forall x, In x l -> f x = g x) -> flat_map f l = flat_map g l.
+Proof.
+  induction l as [|x l IH]; intros H; [reflexivity|]. cbn [flat_map].
+  rewrite H by (left; reflexivity). rewrite IH; [reflexivity|]. intros y Hy. apply H. now right.
+Qed.
+
+(* the nested-block selection lemma *)
+Lemma sel_nested strd S O I J :
+  (forall i, In i I -> 0 <= i < zlen S) -> (forall j, In j J -> 0 <= j < zlen O) ->
+  sel_nth (flat_map (fun outer => map (fun i => strd * i + outer) S) O)
+          (flat_map (fun j => map (fun i => 1 * i + j) I) (map (fun x => zlen S * x) J))
+  = flat_map (fun outer => map (fun i => strd * i + outer) (sel_nth S I)) (sel_nth O J).
+Proof.
+  intros HI HJ. rewrite sel_nth_flat_map, flat_map_map. unfold sel_nth at 3. rewrite flat_map_map.
+  apply flat_map_ext_in'. intros j Hj. unfold sel_nth. rewrite !map_map.
+  apply map_ext_in. intros i Hi. specialize (HI i Hi). specialize (HJ j Hj). unfold zlen in *.
+  replace (Z.to_nat (1 * i + Z.of_nat (length S) * j)) with (Z.to_nat i + length S * Z.to_nat j)%nat by nia.
+  rewrite (nth_blocks (fun outer => map (fun i0 => strd * i0 + outer) S) (length S) O 0 0);
+    [|intros; apply map_length|lia|lia].
+  rewrite (nth_map_in _ S (Z.to_nat i) 0 0) by lia. reflexivity.
+Qed.
+
+(* relation between the canonical index c, the read slicers rd and the post slicers ps *)
+Inductive rp_rel : list Z -> list cidx -> list cidx -> list post -> Prop :=
+| rp_nil : rp_rel [] [] [] []
+| rp_new shape c rd ps : rp_rel shape c rd ps ->
+    rp_rel shape (CNew :: c) (CNew :: rd) (PSl sl_none :: ps)
+| rp_int n shape k c rd ps : 0 <= n -> 0 <= k < n -> rp_rel shape c rd ps ->
+    rp_rel (n :: shape) (CInt k :: c) (CInt k :: rd) ps
+| rp_sl n shape x r p c rd ps : 0 <= n -> valid_cidx n x ->
+    read_post_ok n (axis_sel n x) (CSl r) p ->
+    ((forall k, p = PInt k -> x = CInt k) /\ (forall q, p = PSl q -> exists s, x = CSl s)) -> rp_rel shape c rd ps ->
+    rp_rel (n :: shape) (x :: c) (CSl r :: rd) (p :: ps).
+
+Lemma rp_rel_reads_valid shape c rd ps : rp_rel shape c rd ps -> reads_valid shape rd.
+Proof.
+  induction 1 as [|? ? ? ? ? IH|? ? ? ? ? ? Hn Hk ? IH|? ? ? ? ? ? ? ? Hn Hx Hrp Hpi ? IH]; cbn [reads_valid read_valid]; auto.
+  destruct Hrp as (Hs & _). auto.
+Qed.
+
+Lemma rp_rel_ix_valid shape c rd ps : rp_rel shape c rd ps -> ix_valid shape c.
+Proof.
+  induction 1 as [|? ? ? ? ? IH|? ? ? ? ? ? Hn Hk ? IH|? ? x ? ? ? ? ? Hn Hx Hrp Hpi ? IH]; cbn [ix_valid valid_cidx]; auto.
+  destruct x as [k|s|]; cbn [valid_cidx] in Hx; [| |contradiction]; auto.
+Qed.
+
+Lemma valid_cidx_not_new n x : valid_cidx n x -> x <> CNew.
+Proof. destruct x; cbn; [discriminate|discriminate|contradiction]. Qed.
+
+Lemma rp_rel_post_valid shape c rd ps : rp_rel shape c rd ps ->
+  ix_valid (np_shape shape rd) (map post_to_cidx ps).
+Proof.
+  induction 1 as [|? ? ? ? ? IH|? ? ? ? ? ? Hn Hk ? IH|? ? x ? p ? ? ? Hn Hx Hrp Hpi ? IH];
+    cbn [np_shape map post_to_cidx ix_valid tl hd]; auto.
+  - split; [lia|]. split; [discriminate|assumption].
+  - destruct Hrp as (_ & _ & Hnd & Hpv).
+    destruct p as [|k|q]; [contradiction| |]; cbn [post_to_cidx] in *;
+      (split; [apply Nat2Z.is_nonneg|]); (split; [exact Hpv|assumption]).
+Qed.
+
+Lemma reads_valid_ix_valid : forall rd shape, reads_valid shape rd -> ix_valid shape rd.
+Proof.
+  induction rd as [|c rd IH]; intros shape H; [exact H|].
+  destruct c as [k|s|]; cbn [reads_valid ix_valid] in *; [| |now apply IH];
+    (destruct shape as [|n sh]; [contradiction|]); destruct H as (Hn & Hc & H);
+    (split; [assumption|]); (split; [|now apply IH]); cbn [read_valid valid_cidx] in *; lia.
+Qed.
+
+Lemma offs_cons_real n sh x ix strd : x <> CNew ->
+  offs (n :: sh) (x :: ix) strd
+  = flat_map (fun outer => map (fun i => strd * i + outer) (axis_sel n x)) (offs sh ix (strd * n)).
+Proof. destruct x; [reflexivity|reflexivity|contradiction]. Qed.
+
+Theorem compose_offs shape c rd ps : rp_rel shape c rd ps -> forall strd,
+  sel_nth (offs shape rd strd) (offs (np_shape shape rd) (map post_to_cidx ps) 1) = offs shape c strd.
+Proof.
+  induction 1 as [|shape c rd ps Hrel IH|n shape k c rd ps Hn Hk Hrel IH|n shape x r p c rd ps Hn Hx Hrp Hpi Hrel IH]; intros strd.
+  - reflexivity.
+  - (* new axis: length-1 axis of the block read, post slice(None) *)
+    cbn [np_shape map post_to_cidx offs axis_sel].
+    rewrite (py_indices_none 1) by lia.
+    replace (zseq 1) with [0] by reflexivity.
+    replace (flat_map (fun outer => map (fun i => 1 * i + outer) [0])
+              (offs (np_shape shape rd) (map post_to_cidx ps) (1 * 1)))
+      with (offs (np_shape shape rd) (map post_to_cidx ps) 1).
+    + apply IH.
+    + replace (1 * 1) with 1 by lia. cbn [map]. rewrite flat_map_singleton.
+      rewrite <- (map_id (offs _ _ 1)) at 1. apply map_ext. intros; lia.
+  - (* int read: the axis is absent from the block read *)
+    cbn [np_shape tl]. cbn [offs axis_sel]. cbn [map]. rewrite !flat_map_singleton.
+    pose proof (rp_rel_post_valid _ _ _ _ Hrel) as Hpv.
+    pose proof (rp_rel_reads_valid _ _ _ _ Hrel) as Hrv.
+    rewrite <- (IH (strd * n)). unfold sel_nth. rewrite map_map. apply map_ext_in. intros j Hj.
+    apply (offs_range _ _ _ Hpv) in Hj.
+    assert (Hlen : zlen (offs shape rd (strd * n)) = prod (np_shape shape rd)).
+    { apply offs_length. now apply reads_valid_ix_valid. }
+    apply nth_map_in. unfold zlen in Hlen. lia.
+  - (* slice read *)
+    pose proof (valid_cidx_not_new n x Hx) as Hnn.
+    rewrite (offs_cons_real n shape x c strd Hnn).
+    cbn [np_shape tl hd map].
+    pose proof Hrp as (Hs & Hsel & Hnd & Hpv).
+    assert (Hpn : post_to_cidx p <> CNew) by (destruct p; [contradiction|discriminate|discriminate]).
+    rewrite (offs_cons_real _ _ _ _ 1 Hpn).
+    cbn [offs axis_sel].
+    set (S := py_indices n r) in *. set (m := zlen S) in *.
+    replace (1 * m) with (m * 1) by lia. rewrite (offs_scale (map post_to_cidx ps) (np_shape shape rd) m 1).
+    pose proof (rp_rel_post_valid _ _ _ _ Hrel) as Hpvs.
+    pose proof (rp_rel_reads_valid _ _ _ _ Hrel) as Hrv.
+    assert (Hlen : zlen (offs shape rd (strd * n)) = prod (np_shape shape rd)).
+    { apply offs_length. now apply reads_valid_ix_valid. }
+    rewrite sel_nested.
+    + rewrite Hsel, IH. reflexivity.
+    + intros i Hi. apply (axis_sel_in_range m (post_to_cidx p)); [unfold m, zlen; lia|exact Hpv|exact Hi].
+    + intros j Hj. rewrite Hlen. now apply (offs_range _ _ _ Hpvs).
+Qed.
+
+(* ====================================================================================
+   Part 3a: optimize_read_slicers establishes rp_rel (any heuristic that never answers
+   'contiguous' for an int index; otherwise the code raises ValueError) *)
+Definition h_ok (h : heuristic) : Prop := forall k n s, h (HInt k) n s <> AContig.
+
+Lemma optimize_rest_sl_not_int f n af sl stride h rd ps :
+  optimize_rest (HSl f) n af sl stride h = Ok (rd, ps) -> exists r, rd = CSl r.
+Proof.
+  unfold optimize_rest.
+  destruct af; [destruct (h (HSl f) n stride), sl|]; cbn [andb action_eqb];
+    repeat match goal with |- context [if ?c then _ else _] => destruct c end;
+    intros H; inversion H; subst; eexists; reflexivity.
+Qed.
+
+Lemma optimize_slicer_int_inv c n af sl stride h k ps : valid_cidx n c ->
+  optimize_slicer c n af sl stride h = Ok (CInt k, ps) -> c = CInt k.
+Proof.
+  intros Hv. destruct c as [k0|s|]; cbn [valid_cidx] in Hv; [| |contradiction]; cbn [optimize_slicer].
+  - replace (k0 <? 0) with false by lia. unfold optimize_rest.
+    destruct af, (h (HInt k0) n stride), sl; cbn [andb action_eqb];
+      intros H; try discriminate; inversion H; subst; reflexivity.
+  - destruct (pslice_eqb s sl_none); [discriminate|].
+    destruct (fill_slicer s n) as [f|e]; cbn [bind]; [|discriminate].
+    destruct (fsl_eqb f _); [discriminate|]. destruct (fsl_eqb f _); [discriminate|].
+    intros H. apply optimize_rest_sl_not_int in H. destruct H as [r Hr]. discriminate.
+Qed.
+
+Lemma optimize_rest_sl_not_pint f n af sl stride h rd k :
+  optimize_rest (HSl f) n af sl stride h = Ok (rd, PInt k) -> False.
+Proof.
+  unfold optimize_rest.
+  destruct af; [destruct (h (HSl f) n stride), sl|]; cbn [andb action_eqb];
+    repeat match goal with |- context [if ?c then _ else _] => destruct c end;
+    intros H; inversion H.
+Qed.
+
+Lemma optimize_slicer_pint_inv c n af sl stride h rd k : valid_cidx n c ->
+  optimize_slicer c n af sl stride h = Ok (rd, PInt k) -> c = CInt k.
+Proof.
+  intros Hv. destruct c as [k0|s|]; cbn [valid_cidx] in Hv; [| |contradiction]; cbn [optimize_slicer].
+  - replace (k0 <? 0) with false by lia. unfold optimize_rest.
+    destruct af, (h (HInt k0) n stride), sl; cbn [andb action_eqb];
+      intros H; try discriminate; inversion H; subst; reflexivity.
+  - destruct (pslice_eqb s sl_none); [discriminate|].
+    destruct (fill_slicer s n) as [f|e]; cbn [bind]; [|discriminate].
+    destruct (fsl_eqb f _); [discriminate|]. destruct (fsl_eqb f _); [discriminate|].
+    intros H. apply optimize_rest_sl_not_pint in H. contradiction.
+Qed.
+
+Lemma optimize_slicer_psl_inv c n af sl stride h rd q : valid_cidx n c ->
+  optimize_slicer c n af sl stride h = Ok (rd, PSl q) -> exists s, c = CSl s.
+Proof.
+  intros Hv. destruct c as [k0|s|]; cbn [valid_cidx] in Hv; [| |contradiction]; [|eexists; reflexivity].
+  cbn [optimize_slicer]. replace (k0 <? 0) with false by lia. unfold optimize_rest.
+  destruct af, (h (HInt k0) n stride), sl; cbn [andb action_eqb]; intros H; discriminate.
+Qed.
+
+Lemma optimize_slicer_total c n af sl stride h : h_ok h -> 0 <= n -> valid_cidx n c ->
+  exists rd ps, optimize_slicer c n af sl stride h = Ok (rd, ps).
+Proof.
+  intros Hh Hn Hv. destruct c as [k0|s|]; cbn [valid_cidx] in Hv; [| |contradiction]; cbn [optimize_slicer].
+  - replace (k0 <? 0) with false by lia. unfold optimize_rest. specialize (Hh k0 n stride).
+    destruct af, (h (HInt k0) n stride), sl; cbn [andb action_eqb]; try contradiction;
+      eexists; eexists; reflexivity.
+  - destruct (pslice_eqb s sl_none); [eexists; eexists; reflexivity|].
+    destruct (fill_slicer_ok s n Hv) as [f Hf]. rewrite Hf. cbn [bind].
+    destruct (fsl_eqb f _); [eexists; eexists; reflexivity|].
+    destruct (fsl_eqb f _); [eexists; eexists; reflexivity|].
+    unfold optimize_rest.
+    destruct af, (h (HSl f) n stride), sl; cbn [andb action_eqb];
+      repeat match goal with |- context [if ?c then _ else _] => destruct c end;
+      eexists; eexists; reflexivity.
+Qed.
+
+Lemma opt_read_loop_sound : forall c pre sh h stride af rd ps,
+  ix_valid sh c ->
+  opt_read_loop c (pre ++ sh) h (zlen pre) stride af = Ok (rd, ps) -> rp_rel sh c rd ps.
+Proof.
+  induction c as [|x c IH]; intros pre sh h stride af rd ps Hv Hrun.
+  - cbn in Hv, Hrun. subst sh. injection Hrun as <- <-. constructor.
+  - assert (Hreal : forall n sh', sh = n :: sh' -> 0 <= n -> valid_cidx n x -> ix_valid sh' c ->
+      (dim_len <- py_nth (pre ++ sh) (zlen pre) ;;
+       rp <- optimize_slicer x dim_len af (zlen pre + 1 =? zlen (pre ++ sh)) stride h ;;
+       (let '(rd0, ps0) := rp in
+        t <- opt_read_loop c (pre ++ sh) h (zlen pre + 1) (stride * dim_len) (af && cidx_is_none_slice rd0) ;;
+        Ok (rd0 :: fst t, match rd0 with CInt _ => snd t | _ => ps0 :: snd t end))) = Ok (rd, ps) ->
+      rp_rel sh (x :: c) rd ps).
+    { intros n sh' -> Hn Hx Hv' Hr. rewrite py_nth_app in Hr. cbn [bind] in Hr.
+      destruct (optimize_slicer x n af _ stride h) as [[rd0 ps0]|e] eqn:Eo; cbn [bind] in Hr; [|discriminate].
+      replace (pre ++ n :: sh') with ((pre ++ [n]) ++ sh') in Hr by (rewrite <- app_assoc; reflexivity).
+      replace (zlen pre + 1) with (zlen (pre ++ [n])) in Hr by (unfold zlen; rewrite app_length; cbn; lia).
+      destruct (opt_read_loop c ((pre ++ [n]) ++ sh') h _ _ _) as [[rdt pst]|e] eqn:El; cbn [bind] in Hr; [|discriminate].
+      apply IH in El; [|assumption]. cbn [fst snd] in Hr.
+      pose proof (optimize_slicer_sound x n af _ stride h rd0 ps0 Hn Hx Eo) as Hs.
+      destruct rd0 as [k|r|]; [| |cbn in Hs; contradiction]; injection Hr as <- <-.
+      - apply optimize_slicer_int_inv in Eo; [|assumption]. subst x. cbn in Hx. now constructor.
+      - constructor; try assumption. split.
+        + intros k0 ->. eapply optimize_slicer_pint_inv; eauto.
+        + intros q ->. eapply optimize_slicer_psl_inv; eauto. }
+    destruct x as [k|s|]; cbn [ix_valid] in Hv.
+    + destruct sh as [|n sh']; [contradiction|]. destruct Hv as (Hn & Hx & Hv').
+      cbn [opt_read_loop] in Hrun. eapply Hreal; eauto.
+    + destruct sh as [|n sh']; [contradiction|]. destruct Hv as (Hn & Hx & Hv').
+      cbn [opt_read_loop] in Hrun. eapply Hreal; eauto.
+    + cbn [opt_read_loop] in Hrun.
+      destruct (opt_read_loop c (pre ++ sh) h (zlen pre) stride af) as [[rdt pst]|e] eqn:El; cbn [bind] in Hrun; [|discriminate].
+      injection Hrun as <- <-. cbn [fst snd]. constructor. eapply IH; eauto.
+Qed.
+
+Lemma opt_read_loop_total : forall c pre sh h stride af, h_ok h -> ix_valid sh c ->
+  exists rd ps, opt_read_loop c (pre ++ sh) h (zlen pre) stride af = Ok (rd, ps).
+Proof.
+  induction c as [|x c IH]; intros pre sh h stride af Hh Hv.
+  - eexists; eexists; reflexivity.
+  - assert (Hreal : forall n sh', sh = n :: sh' -> 0 <= n -> valid_cidx n x -> ix_valid sh' c ->
+      exists rd ps,
+      (dim_len <- py_nth (pre ++ sh) (zlen pre) ;;
+       rp <- optimize_slicer x dim_len af (zlen pre + 1 =? zlen (pre ++ sh)) stride h ;;
+       (let '(rd0, ps0) := rp in
+        t <- opt_read_loop c (pre ++ sh) h (zlen pre + 1) (stride * dim_len) (af && cidx_is_none_slice rd0) ;;
+        Ok (rd0 :: fst t, match rd0 with CInt _ => snd t | _ => ps0 :: snd t end))) = Ok (rd, ps)).
+    { intros n sh' -> Hn Hx Hv'. rewrite py_nth_app. cbn [bind].
+      destruct (optimize_slicer_total x n af (zlen pre + 1 =? zlen (pre ++ n :: sh')) stride h Hh Hn Hx) as (rd0 & ps0 & Eo).
+      rewrite Eo. cbn [bind].
+      replace (pre ++ n :: sh') with ((pre ++ [n]) ++ sh') by (rewrite <- app_assoc; reflexivity).
+      replace (zlen pre + 1) with (zlen (pre ++ [n])) by (unfold zlen; rewrite app_length; cbn; lia).
+      destruct (IH (pre ++ [n]) sh' h (stride * n) (af && cidx_is_none_slice rd0) Hh Hv') as (rdt & pst & El).
+      rewrite El. cbn [bind]. eexists; eexists; reflexivity. }
+    destruct x as [k|s|]; cbn [ix_valid] in Hv.
+    + destruct sh as [|n sh']; [contradiction|]. destruct Hv as (Hn & Hx & Hv'). cbn [opt_read_loop]. eapply Hreal; eauto.
+    + destruct sh as [|n sh']; [contradiction|]. destruct Hv as (Hn & Hx & Hv'). cbn [opt_read_loop]. eapply Hreal; eauto.
+    + cbn [opt_read_loop]. destruct (IH pre sh h stride af Hh Hv) as (rdt & pst & El). rewrite El. cbn [bind].
+      eexists; eexists; reflexivity.
+Qed.
+
+(* ====================================================================================
+   Part 3c: predict_shape on the read slicers (re-canonicalised by the code) *)
+Definition norm_sl (d : Z) (s : pslice) : pslice :=
+  if negb (pslice_eqb s sl_none) && opt_eqb (s_stop s) (Some d) && opt_in0 (s_start s) 0 && opt_in0 (s_step s) 1
+  then sl_none else s.
+
+Lemma norm_sl_indices d s : 0 <= d -> py_indices d (norm_sl d s) = py_indices d s.
+Proof.
+  intros Hd. unfold norm_sl.
+  destruct (negb (pslice_eqb s sl_none) && opt_eqb (s_stop s) (Some d) && opt_in0 (s_start s) 0 && opt_in0 (s_step s) 1) eqn:E;
+    [|reflexivity].
+  apply andb_true_iff in E. destruct E as [E E3]. apply andb_true_iff in E. destruct E as [E E2].
+  apply andb_true_iff in E. destruct E as [_ E1].
+  destruct s as [a b c]. cbn [s_start s_stop s_step] in *.
+  destruct b as [b|]; cbn in E1; [|discriminate]. apply Z.eqb_eq in E1. subst b.
+  unfold py_indices. f_equal. unfold adjust, step_of, sl_none, clampv. cbn [s_start s_stop s_step].
+  destruct c as [c|]; cbn in E3; [apply Z.eqb_eq in E3; subst c|];
+    (destruct a as [a|]; cbn in E2; [apply Z.eqb_eq in E2; subst a|]); cbn [Z.ltb Z.compare];
+    replace (d <? 0) with false by lia; rewrite ?Z.min_id, ?Z.min_l by lia; reflexivity.
+Qed.
+
+Fixpoint normalize (sh : list Z) (rd : list cidx) : list cidx :=
+  match rd with
+  | [] => []
+  | CNew :: r => CNew :: normalize sh r
+  | CInt k :: r => CInt k :: normalize (tl sh) r
+  | CSl s :: r => CSl (norm_sl (hd 0 sh) s) :: normalize (tl sh) r
+  end.
+
+Lemma existsb_is_ell_map rd : existsb is_ell (map cidx_to_idx rd) = false.
+Proof. induction rd as [|c rd IH]; [reflexivity|]. destruct c; cbn; assumption. Qed.
+
+Lemma canon_plain : forall rd pre sh acc, reads_valid sh rd ->
+  canon true (pre ++ sh) (map cidx_to_idx rd) (zlen pre) acc
+  = Ok (rev acc ++ normalize sh rd, zlen pre + zlen sh).
+Proof.
+  induction rd as [|c rd IH]; intros pre sh acc Hv.
+  - cbn in Hv. subst sh. cbn. rewrite app_nil_r. f_equal. f_equal. unfold zlen; cbn; lia.
+  - destruct c as [k|s|]; cbn [reads_valid] in Hv.
+    + destruct sh as [|n sh]; [contradiction|]. destruct Hv as (Hn & Hk & Hv). cbn [read_valid] in Hk.
+      cbn [map cidx_to_idx canon]. rewrite py_nth_app. cbn [bind].
+      replace (k <? 0) with false by lia. replace (true && (n <=? k)) with false by lia.
+      replace (pre ++ n :: sh) with ((pre ++ [n]) ++ sh) by (rewrite <- app_assoc; reflexivity).
+      replace (zlen pre + 1) with (zlen (pre ++ [n])) by (unfold zlen; rewrite app_length; cbn; lia).
+      rewrite IH by assumption. cbn [rev normalize tl]. rewrite <- app_assoc. cbn [app].
+      f_equal. f_equal. unfold zlen. rewrite app_length. cbn [length]. lia.
+    + destruct sh as [|n sh]; [contradiction|]. destruct Hv as (Hn & Hs & Hv).
+      cbn [map cidx_to_idx canon]. rewrite py_nth_app. cbn [bind].
+      replace (pre ++ n :: sh) with ((pre ++ [n]) ++ sh) by (rewrite <- app_assoc; reflexivity).
+      replace (zlen pre + 1) with (zlen (pre ++ [n])) by (unfold zlen; rewrite app_length; cbn; lia).
+      rewrite IH by assumption. cbn [rev normalize tl hd]. rewrite <- app_assoc. cbn [app].
+      f_equal. f_equal. unfold zlen. rewrite app_length. cbn [length]. lia.
+    + cbn [map cidx_to_idx canon]. rewrite IH by assumption. cbn [rev normalize]. rewrite <- app_assoc. reflexivity.
+Qed.
+
+Lemma predict_loop_normalize : forall rd pre sh, reads_valid sh rd ->
+  predict_loop (normalize sh rd) (pre ++ sh) (zlen pre) = Ok (np_shape sh rd).
+Proof.
+  induction rd as [|c rd IH]; intros pre sh Hv.
+  - reflexivity.
+  - destruct c as [k|s|]; cbn [reads_valid] in Hv.
+    + destruct sh as [|n sh]; [contradiction|]. destruct Hv as (Hn & Hk & Hv).
+      cbn [normalize predict_loop np_shape tl].
+      replace (pre ++ n :: sh) with ((pre ++ [n]) ++ sh) by (rewrite <- app_assoc; reflexivity).
+      replace (zlen pre + 1) with (zlen (pre ++ [n])) by (unfold zlen; rewrite app_length; cbn; lia).
+      now apply IH.
+    + destruct sh as [|n sh]; [contradiction|]. destruct Hv as (Hn & Hs & Hv). cbn [read_valid] in Hs.
+      cbn [normalize predict_loop np_shape tl hd]. rewrite py_nth_app. cbn [bind].
+      assert (Hst : step_of (norm_sl n s) <> 0).
+      { unfold norm_sl. destruct (_ && _ && _ && _); [cbn; lia|lia]. }
+      rewrite slice2len_spec by assumption. cbn [bind]. rewrite norm_sl_indices by assumption.
+      replace (pre ++ n :: sh) with ((pre ++ [n]) ++ sh) by (rewrite <- app_assoc; reflexivity).
+      replace (zlen pre + 1) with (zlen (pre ++ [n])) by (unfold zlen; rewrite app_length; cbn; lia).
+      rewrite IH by assumption. reflexivity.
+    + cbn [normalize predict_loop np_shape]. rewrite IH by assumption. reflexivity.
+Qed.
+
+Lemma predict_shape_reads rd shape : reads_valid shape rd ->
+  predict_shape (map cidx_to_idx rd) shape = Ok (np_shape shape rd).
+Proof.
+  intros Hv. unfold predict_shape, canonical_slicers.
+  assert (Hc : canon true shape (map cidx_to_idx rd) 0 [] = Ok (normalize shape rd, zlen shape))
+    by exact (canon_plain rd [] shape [] Hv).
+  rewrite Hc. cbn [bind]. replace (zlen shape - zlen shape) with 0 by lia. cbn [Z.to_nat repeat].
+  rewrite app_nil_r. apply (predict_loop_normalize rd [] shape Hv).
+Qed.
+
+
+(* shape of the post-sliced block = shape of the directly indexed array *)
+Lemma np_shape_compose shape c rd ps : rp_rel shape c rd ps ->
+  np_shape (np_shape shape rd) (map post_to_cidx ps) = np_shape shape c.
+Proof.
+  induction 1 as [|? ? ? ? ? IH|? ? ? ? ? ? Hn Hk ? IH|n ? x r p ? ? ? Hn Hx Hrp Hpi ? IH].
+  - reflexivity.
+  - cbn [np_shape map post_to_cidx tl hd]. rewrite IH. f_equal.
+  - cbn [np_shape tl]. exact IH.
+  - destruct Hrp as (_ & Hsel & Hnd & Hpv). destruct Hpi as [Hpi1 Hpi2].
+    destruct p as [|k|q]; [contradiction| |]; cbn [map post_to_cidx np_shape tl hd axis_sel] in *.
+    + rewrite (Hpi1 k eq_refl). cbn [np_shape tl]. exact IH.
+    + destruct (Hpi2 q eq_refl) as [s ->]. cbn [np_shape tl hd axis_sel] in *. rewrite IH. f_equal.
+      rewrite <- Hsel. unfold sel_nth, zlen. now rewrite map_length.
+Qed.
